@@ -5,8 +5,10 @@ WT=$1; P=$2; NAME=$3
 bash /verif/tools/keep_mutant.sh $WT $P $NAME 2>&1 | tail -1
 [ -f $WT/NOTES.md ] && cp $WT/NOTES.md /verif/seeded/$NAME/
 cd /verif
+EVBAK=$(mktemp -d); cp evidence/*.json $EVBAK/
 out=$(VERIF_REPO=$WT timeout 3600 ./check $P --tier ${4:-quick} 2>&1); rc=$?
 echo "$NAME: check exit=$rc"
 echo "$out" | grep -A1 "^VIOLATION" | grep -v "^--" | cut -c1-260 | head -6
 echo "$out" | grep "^check" | tail -1
 (cd harness && /venv/bin/python extract.py >/dev/null)
+cp $EVBAK/*.json evidence/; rm -rf $EVBAK
